@@ -5,7 +5,7 @@ CONSTANTS
   Vals = {1, 2, 3}
   MaxRecs = 4
   MemPaths = {3}
-  Avoid = {"mem_shrink", "mem_reopen"}
+  Avoid = {}
   Mirror = FALSE
   MaxLevel = 100
   SimK = 0
